@@ -54,7 +54,7 @@ var stmtPool = []string{
 	"SELECT f($p, $q) FROM m WHERE a =~ $r",
 }
 
-func mutate(r *rand.Rand, s string) string {
+func mutateBytes(r *rand.Rand, s string) string {
 	b := []byte(s)
 	for k := r.Intn(4); k >= 0; k-- {
 		if len(b) == 0 {
@@ -130,9 +130,9 @@ func hostileText(r *rand.Rand) string {
 	case 0:
 		return randBytes(r)
 	case 1, 2:
-		return mutate(r, pick(r, stmtPool))
+		return mutateBytes(r, pick(r, stmtPool))
 	case 3:
-		return mutate(r, randExprText(r, 0, r.Intn(8)))
+		return mutateBytes(r, randExprText(r, 0, r.Intn(8)))
 	default:
 		return tokenSoup(r)
 	}
@@ -308,7 +308,7 @@ func genTotalExpr(r *rand.Rand, n int, emit func(args ...string)) {
 		case 0:
 			t = randBytes(r)
 		case 1:
-			t = mutate(r, randExprText(r, 0, r.Intn(8)))
+			t = mutateBytes(r, randExprText(r, 0, r.Intn(8)))
 		case 2:
 			t = randExprText(r, 0, r.Intn(40))
 		default:
@@ -322,51 +322,11 @@ func genTotalExpr(r *rand.Rand, n int, emit func(args ...string)) {
 	}
 }
 
-// hasLongDigitRun: a run of digits (with at most one '.') carrying more than 15 significant digits
-// anywhere in the text. The shared longNumberLiteral check tokenises with the plain Scanner and
-// misses number literals that only the parser sees (after a ScanRegex the plain Scanner may be inside
-// what it takes for a comment); this check is purely textual and therefore conservative.
-func hasLongDigitRun(text string) bool {
-	n := len(text)
-	for i := 0; i < n; {
-		if !(text[i] >= '0' && text[i] <= '9') && text[i] != '.' {
-			i++
-			continue
-		}
-		j := i
-		dots := 0
-		var digits []byte
-		for j < n && ((text[j] >= '0' && text[j] <= '9') || (text[j] == '.' && dots == 0)) {
-			if text[j] == '.' {
-				dots++
-			} else {
-				digits = append(digits, text[j])
-			}
-			j++
-		}
-		if dots > 0 && len(strings.TrimLeft(string(digits), "0")) > 15 {
-			return true
-		}
-		if j == i {
-			j++
-		}
-		i = j
-	}
-	return false
-}
-
-func implTotalExpr(args []string) string {
-	if text, err := decStr(args[0]); err == nil && hasLongDigitRun(text) {
-		return "skip-float-precision"
-	}
-	return implParseExpr(args)
-}
-
 func init() {
 	register(&stream{name: "total.bytes", gen: genTotalBytes, impl: implTotalBytes, prop: propTotalBytes,
 		class: func(args []string, out string) string { return out },
 		nontrivial: func(args []string, out string) bool { return len(args[0]) > 10 }})
-	register(&stream{name: "total.expr", gen: genTotalExpr, impl: implTotalExpr,
+	register(&stream{name: "total.expr", gen: genTotalExpr, impl: implParseExpr,
 		prop: func(args []string) string {
 			text, err := decStr(args[0])
 			if err != nil {
